@@ -67,6 +67,7 @@ def gen_direct(rng, infeasible=False, classes=None, plain=False):
             if i not in bools and rng.random() < 0.5:
                 l[i], u[i], x0[i] = l[i] * S_, u[i] * S_, x0[i] * S_
     c = [round(rng.uniform(-10, 10), 2) if rng.random() < 0.85 else 0.0 for _ in range(n)]
+    int_A = rng.random() < 0.12
     if classes is None:
         classes = rng.choice([["U", "L", "S", "N"], ["U", "L", "S", "N"], ["U"], ["L"], ["S"], ["N"], ["U", "L"], ["S", "N"], []])
     rows = []
@@ -76,6 +77,8 @@ def gen_direct(rng, infeasible=False, classes=None, plain=False):
         k = rng.randint(1, min(n, 4))
         cols = sorted(rng.sample(range(n), k))
         vals = [round(rng.uniform(-3, 3), 2) or 1.0 for _ in cols]
+        if int_A:
+            vals = [float(int(v) or (1 if v > 0 else -1)) for v in vals]
         ax = sum(v * x0[j] for v, j in zip(vals, cols))
         slack = rng.choice([0.0, 0.0, round(rng.uniform(0, 5), 2)])
         if t == "U":
@@ -127,7 +130,8 @@ def gen_direct(rng, infeasible=False, classes=None, plain=False):
     with_bool_col = bool(bools) or rng.random() < 0.3
     return {"kind": "direct", "n": n, "c": c, "l": l, "u": u, "rows": rows, "map": maprows, "bool_col": with_bool_col,
             "bools": bools, "x0": x0, "A_format": rng.choice(["lil", "lil", "csr", "coo", "csc"]),
-            "bool_nan": bool(bools) and rng.random() < 0.3, "int_c": rng.random() < 0.2, "coo_dups": rng.random() < 0.12}
+            "bool_nan": bool(bools) and rng.random() < 0.3, "int_c": rng.random() < 0.2, "coo_dups": (not int_A) and rng.random() < 0.12,
+            "int_A": int_A}
 
 
 def build_direct(s):
@@ -153,6 +157,8 @@ def build_direct(s):
         m["bool"] = m["bool"].astype(object).where(m["bool"], np.nan)
     if A is not None and s.get("A_format", "lil") != "lil":
         A = getattr(A, "to" + s["A_format"])()
+    if A is not None and s.get("int_A"):
+        A = A.astype(np.int64)          # an incidence-like matrix handed over with an integer dtype (b stays fractional)
     if A is not None and s.get("coo_dups"):
         # coo format with every entry split into two that have to be summed, plus explicitly stored zeros
         Ac = sp.coo_matrix(A)
@@ -231,6 +237,8 @@ def gen_plan(rng, run_index, tier, opts):
     plan["solver"] = solver
     tr = rng.random()
     plan["target"] = "value"
+    if rng.random() < 0.25:
+        plan["target_spelling"] = rng.choice(["upper", "cap"])
     if plan["source"]["kind"] not in ("split", "direct_split") and tr < 0.15:
         plan["target"] = "robust"
         plan["n_samples"] = rng.choice([1, 2, 2, 3, 4])
@@ -765,8 +773,10 @@ class Conversation:
             kw["make_soft_problem"] = True
             self.probes["soft_problem"] += 1
         target = call.get("target", "value")
+        if target == "value" and plan.get("target_spelling"):
+            kw["target"] = {"upper": "VALUE", "cap": "Value"}.get(plan["target_spelling"], "value")
         if target == "robust":
-            kw["target"] = "robust"
+            kw["target"] = {"upper": "ROBUST", "cap": "Robust"}.get(plan.get("target_spelling"), "robust")   # target.lower() is what the code promises
             rs = np.random.RandomState(plan["sample_seed"])  # seeded from the plan, not from a global source
             c = np.asarray(ops[0].c, float)
             self.samples = [c * (1 + 0.3 * rs.randn(len(c))) + 0.5 * rs.randn(len(c)) for _ in range(plan["n_samples"])]
